@@ -271,6 +271,7 @@ fn hist_opts(mark_all: bool) -> GraphOpts {
         absolute: false,
         decoys: true,
         mark_all,
+        sized: true,
     }
 }
 
@@ -357,6 +358,27 @@ pub fn gen(prop: &str, seed: u64, index: u64, _tier: Tier) -> Case {
                 _ => vec![],
             };
             let mut tn2 = tn;
+            let sized: Vec<usize> = req.iter().copied().filter(|i| a.sources[*i].path.starts_with("sized")).collect();
+            if !sized.is_empty() && rng.chance(2, 3) {
+                // outputs of boundary size: changes at the very end
+                let s = &a.sources[sized[0]];
+                let (kind, at) = rng
+                    .pick(&[
+                        (TamperKind::Append, 1000u32),
+                        (TamperKind::Append, 1000),
+                        (TamperKind::Insert, 1000),
+                        (TamperKind::Truncate, 1000),
+                        (TamperKind::Flip, 1000),
+                        (TamperKind::Delete, 1000),
+                    ])
+                    .clone();
+                ops.push(Op::Tamper {
+                    path: s.out.clone(),
+                    kind,
+                    at,
+                });
+                variant = "tamper-boundary-sized".into();
+            } else {
             match rng.below(8) {
                 0..=4 => {
                     // tamper an output of the requested closure (requested file or dependency)
@@ -385,6 +407,7 @@ pub fn gen(prop: &str, seed: u64, index: u64, _tier: Tier) -> Case {
                         variant = "tamper-unrelated".into();
                     }
                 }
+            }
             }
             ops.push(Op::Sentinel);
             ops.push(run_op(&mut rng, ModeS::Verify, &inputs, recursive, tn2, "verify-after"));
